@@ -2078,6 +2078,25 @@ class Interp:
         elif v == "LOGOUT":
             ms.dead = True
 
+    async def op_rmf(self, op):
+        """An MH user removes a folder with all its messages (`rmf`) while the server runs."""
+        import shutil
+
+        box = self.model.box(op["mbox"])
+        path = os.path.join(self.maildir, norm_mbox_name(op["mbox"]))
+        if not os.path.isdir(path) or any(os.path.isdir(os.path.join(path, d_)) for d_ in os.listdir(path)):
+            return  # (only leaf folders)
+        shutil.rmtree(path, ignore_errors=True)
+        self.env.fired("folder_removed_externally")
+        if box is not None:
+            for b in self.model.boxes.values():
+                b.uncertain = True
+            self.model.boxes.pop(norm_mbox_name(op["mbox"]), None)
+            for m2 in self.model.sessions.values():
+                if m2.selected is box:
+                    m2.selected = None
+                    m2.lost_mailbox = True
+
     async def op_raw_in_idle(self, op):
         """Send something other than DONE while idling (the server answers
         with an untagged NO / a re-prompt and keeps idling)."""
